@@ -356,7 +356,7 @@ def main(ident, tier, replay=None):
                 if sample is not None and len(totals['samples']) < 2:
                     totals['samples'].append(sample)
                 for case, outd in fails:
-                    o = Out(); o.ok = False; o.kind = outd['kind']; o.where = outd['where']; o.detail = outd['detail']
+                    o = Out(); o.ok = False; o.kind = outd['kind']; o.where = outd['where']; o.detail = outd['detail']; o.extra = outd.get('extra', {}) or {}
                     kid = match_known(mod, case, o, known)
                     if kid:
                         totals['known_seen'][kid] = totals['known_seen'].get(kid, 0) + 1
